@@ -14,6 +14,16 @@ class ToolError(Exception):
     """Build failure, TLC failure, timeout, vacuous coverage, model invariant failure (exit 2)."""
 
 
+class HangError(Exception):
+    """The driver's watchdog fired while ONE case of the code under test had been in flight for minutes."""
+    def __init__(self, info):
+        Exception.__init__(self, "hang")
+        self.info = info
+
+
+STUCK_SECS = 240     # a single case in flight this long is a hang of the code under test, not a slow run
+
+
 def log(*a):
     print(*a, flush=True)
 
@@ -61,10 +71,23 @@ def build_harness():
     return VDRIVE
 
 
-def vdrive(args, timeout=1800, env=None):
+def vdrive(args, timeout=1800, env=None, watchdog=None):
     """Run the driver.  rc 0 = ran to completion (mismatches are data in the --out file)."""
     build_harness()
+    prog = os.path.join(ROOT, "run", "progress-%d.json" % os.getpid())
+    if os.path.exists(prog):
+        os.remove(prog)
+    e = {"VERIF_PROGRESS": prog, "VERIF_WATCHDOG": os.environ.get("VERIF_WATCHDOG_OVERRIDE") or str(watchdog or max(300, int(timeout * 0.8)))}
+    if env:
+        e.update(env)
+    env = e
     rc, out, dt = sh([VDRIVE] + [str(a) for a in args], timeout=timeout, env=env, cwd=ROOT)
+    if rc == 3 and os.path.exists(prog):
+        info = json.load(open(prog))
+        os.remove(prog)
+        if info.get("stuck_for", 0) >= int(os.environ.get("VERIF_STUCK_OVERRIDE") or STUCK_SECS):
+            raise HangError(info)
+        raise ToolError("driver watchdog fired after %ss without a stuck case (slow run): %s" % (info.get("watchdog_secs"), info))
     if rc != 0:
         raise ToolError("vdrive %s failed rc=%s\n%s" % (" ".join(map(str, args)), rc, out[-4000:]))
     return out, dt
@@ -323,20 +346,36 @@ class Check:
 
     def replay(self, module, vectors, extra_args=(), timeout=1800, env=None):
         res = self.path("replay-%s.ndjson" % module)
-        out, dt = vdrive([module, "replay", "--in", vectors, "--out", res, "--seed", self.seed,
-                          "--tier", self.tier] + list(extra_args), timeout=timeout, env=env)
+        try:
+            out, dt = vdrive([module, "replay", "--in", vectors, "--out", res, "--seed", self.seed,
+                              "--tier", self.tier] + list(extra_args), timeout=timeout, env=env, watchdog=420 if self.tier == "quick" else None)
+        except HangError as h:
+            return self.hang(module, h)
         return self.absorb(res, "replay " + module, dt, {"module": module, "mode": "replay", "vectors": vectors, "args": list(extra_args)})
 
     def record(self, module, extra_args=(), out_name=None, timeout=1800, env=None):
         tr = self.path(out_name or ("trace-%s.ndjson" % module))
         res = self.path("record-%s.ndjson" % module)
-        out, dt = vdrive([module, "record", "--out", tr, "--res", res, "--seed", self.seed,
-                          "--tier", self.tier] + list(extra_args), timeout=timeout, env=env)
+        try:
+            out, dt = vdrive([module, "record", "--out", tr, "--res", res, "--seed", self.seed,
+                              "--tier", self.tier] + list(extra_args), timeout=timeout, env=env, watchdog=420 if self.tier == "quick" else None)
+        except HangError as h:
+            self.hang(module, h)
+            open(tr, "w").close()
+            return tr, 0
         n = sum(1 for _ in open(tr)) if os.path.exists(tr) else 0
         log("  [T] %s: recorded %d events from the real code (%.1fs)" % (module, n, dt))
         if os.path.exists(res):
             self.absorb(res, "record " + module, dt, {"module": module, "mode": "record", "args": list(extra_args)})
         return tr, n
+
+    def hang(self, module, h):
+        """The code under test did not return on one case: a violation of every totality/termination clause."""
+        self.mismatches.append({"t": "mismatch", "kind": "violation", "sig": "%s/hang" % self.pid,
+                                "detail": "the code under test did not return for %ss on: %s" % (h.info.get("stuck_for"), str(h.info.get("current"))[:400]),
+                                "case": h.info, "how": {"module": module}})
+        log("  [%s] HANG: one case in flight for %ss" % (module, h.info.get("stuck_for")))
+        return 0
 
     def absorb(self, res_path, label, dt, how):
         """Read a driver result file: summary line(s) + mismatch lines."""
@@ -368,6 +407,8 @@ class Check:
         kw.setdefault("xss", "1g")
         if not batch:
             kw.setdefault("deque", True)
+        if os.path.getsize(trace) == 0 and any(m.get("sig", "").endswith("/hang") for m in self.mismatches):
+            return None
         r = tlc(module, cfg, run_dir=self.run_dir, env={"TRACE": trace}, **kw)
         require_model_ok(r, cfg or module)
         self.states += r.distinct
